@@ -315,13 +315,20 @@ def r4_config_coverage(r, facts):
     # writes to parameters.<field> and flag ORs, with the Config fields that control / feed them
     field_src = {}
     flag_guard = {}
+    # stores into parameters.<field>, and the fields of a struct literal `io_uring_params { sq_entries: .., flags: .., ..zeroed() }`
+    writes = []
     for loc, s in f.assigns():
         lhs = s['lhs']
         fl = [p for p in lhs['p'] if p['k'] == 'field']
-        if not fl or not (fl[-1].get('adt') or '').endswith('io_uring_params'):
-            continue
-        pname = fl[-1]['name']
-        e = eb.rvalue(s['rv'])
+        if fl and (fl[-1].get('adt') or '').endswith('io_uring_params'):
+            writes.append((loc, fl[-1]['name'], eb.rvalue(s['rv'])))
+        elif not lhs['p'] and s['rv']['k'] == 'agg' and (s['rv'].get('adt') or '').endswith('io_uring_params'):
+            for nm_, op_ in zip(s['rv']['fields'], s['rv']['ops']):
+                e_ = eb.operand(op_)
+                if any(x[0] == 'call' and x[1].endswith('mem::zeroed') for x in subexprs(e_)) and not any(x[0] == 'arg' for x in subexprs(e_)):
+                    continue        # taken over from the zeroed base
+                writes.append((loc, nm_, e_))
+    for loc, pname, e in writes:
         srcs = set()
         for x in subexprs(e):
             if x[0] == 'proj':
@@ -349,6 +356,11 @@ def r4_config_coverage(r, facts):
             lhs = s['lhs']
             fl = [p for p in lhs['p'] if p['k'] == 'field']
             is_flags = bool(fl) and (fl[-1].get('adt') or '').endswith('io_uring_params') and fl[-1]['name'] == 'flags'
+            if not lhs['p'] and s['rv']['k'] == 'agg' and (s['rv'].get('adt') or '').endswith('io_uring_params') and 'flags' in (s['rv'].get('fields') or []):
+                op_ = s['rv']['ops'][s['rv']['fields'].index('flags')]
+                if 'l' in op_ and not op_['p'] and op_['l'] not in carriers:
+                    carriers.add(op_['l'])
+                    changed = True
             if is_flags or (not lhs['p'] and lhs['l'] in carriers):
                 if s['rv']['k'] in ('use', 'bin', 'cast'):
                     for op in rvalue_operands(s['rv']):
